@@ -94,10 +94,16 @@ def _hall_crystal(hall, key, norbits, max_unit):
         pos = np.array(pos)
         vol = abs(np.linalg.det(L))
         L = L * np.cbrt(len(pos) * 14.0 / vol)
-        if _min_pair_distance(pos, L) < 0.8:
+        if _min_pair_distance(pos, L) < 0.8 or _short_vector(L) < 1.6:
             continue
         return L, pos, sym
     return None
+
+
+def _short_vector(L):
+    from oracles.lattice import shortest_lattice_vector
+
+    return shortest_lattice_vector(L)
 
 
 PROTOS = {
@@ -152,7 +158,7 @@ def _centred_motif(centring, key, nmotif):
             c = 4.0 + 4 * rng.random()
             L = np.array([[a, 0, 0], [-a / 2, a * np.sqrt(3) / 2, 0], [0, 0, c]])
         else:
-            A = rng.normal(size=(3, 3)) * 0.6
+            A = rng.normal(size=(3, 3)) * 0.35
             L = (np.eye(3) + A) * (3.5 + 2 * rng.random())
             if abs(np.linalg.det(L)) < 20:
                 continue
@@ -164,7 +170,7 @@ def _centred_motif(centring, key, nmotif):
                 sym.append(SPECIES[m % 3 + 2])
         pos = np.array(pos)
         L = L * np.cbrt(len(pos) * 14.0 / abs(np.linalg.det(L)))
-        if _min_pair_distance(pos, L) < 0.8:
+        if _min_pair_distance(pos, L) < 0.8 or _short_vector(L) < 1.6:
             continue
         return L, pos, sym
     return None
@@ -173,13 +179,13 @@ def _centred_motif(centring, key, nmotif):
 def _p1(key, natom, nspecies):
     for attempt in range(8):
         rng = rng_from(key, 300 + attempt)
-        A = rng.normal(size=(3, 3)) * 0.5
+        A = rng.normal(size=(3, 3)) * 0.4
         L = (np.eye(3) + A)
         if abs(np.linalg.det(L)) < 0.3:
             continue
         pos = rng.random((natom, 3))
         L = L * np.cbrt(natom * 14.0 / abs(np.linalg.det(L)))
-        if _min_pair_distance(pos, L) < 0.8:
+        if _min_pair_distance(pos, L) < 0.8 or _short_vector(L) < 1.6:
             continue
         sym = [SPECIES[i % nspecies + 4] for i in range(natom)]
         return L, pos, sym
